@@ -1432,7 +1432,12 @@ pub fn serve() {
                     // a refused transaction reports the class of its error text (1 the pair's max-spread assertion, 2 its
                     // max-slippage assertion, 0 anything else), so that "rejected by this guard" can be told from other refusals
                     Ok(Err(msg)) => (
-                        "fail",
+                        {
+                            if std::env::var("HT_TRACE").is_ok() {
+                                eprintln!("refused: {}", msg);
+                            }
+                            "fail"
+                        },
                         vec![if msg.contains("Max spread assertion") {
                             1
                         } else if msg.contains("Max slippage assertion") {
